@@ -160,12 +160,30 @@ def r17_4(ctx):
         if isinstance(x, ast.GeneratorExp) and isinstance(x.elt, ast.Tuple) and "lexer.get_tokens(code)" in norm(x.generators[0].iter):
             tv = [norm(t) for t in x.generators[0].target.elts]
             ok = norm(x.elt.elts[0]) == tv[1] and not x.generators[0].ifs
+    if not ok:
+        # nested generator form:  def g(): for token_type, token in lexer.get_tokens(code): yield (token, style)
+        for x in ast.walk(f.node):
+            if isinstance(x, ast.For) and "lexer.get_tokens(code)" in norm(x.iter) and isinstance(x.target, ast.Tuple) and len(x.target.elts) == 2 and len(x.body) == 1 and isinstance(x.body[0], ast.Expr) and isinstance(x.body[0].value, ast.Yield) and isinstance(x.body[0].value.value, ast.Tuple):
+                enc = f.module.parent_of.get(x)
+                if isinstance(enc, ast.FunctionDef) and enc.name not in ("line_tokenize",) and norm(x.body[0].value.value.elts[0]) == norm(x.target.elts[1]):
+                    ok = True
     ctx.check(ok, f.fq, "(token, style) for token_type, token in lexer.get_tokens(code)", f.where, "whole-code path appends every token text unchanged", "the whole-code path does not append each token's text unchanged (tokens filtered or transformed)")
     lt = m.functions.get("Syntax.highlight.<locals>.line_tokenize")
     if lt is None:
         raise AnchorVanished("Syntax.highlight.<locals>.line_tokenize not found")
     s2 = norm(lt.node)
     ok = "line_token, new_line, token = token.partition('\\n')" in s2 and "yield (token_type, line_token + new_line)" in s2 and "lexer.get_tokens(code)" in s2 and "while token:" in s2
+    if not ok and "lexer.get_tokens(code)" in s2:
+        # split form: *pieces, last = token.split("\n"); every piece + "\n" in order, then the non-empty remainder
+        for x in walk_local(lt.node):
+            if isinstance(x, ast.Assign) and isinstance(x.targets[0], (ast.Tuple, ast.List)) and len(x.targets[0].elts) == 2 and isinstance(x.targets[0].elts[0], ast.Starred) and norm(x.value) == "token.split('\\n')":
+                pieces, last = norm(x.targets[0].elts[0].value), norm(x.targets[0].elts[1])
+                blk = f.module.parent_of.get(x)
+                body = getattr(blk, "body", [])
+                i = body.index(x) if x in body else -1
+                rest = body[i + 1:] if i >= 0 else []
+                ok = (len(rest) == 2 and isinstance(rest[0], ast.For) and norm(rest[0].iter) == pieces and len(rest[0].body) == 1 and norm(rest[0].body[0]) == f"yield (token_type, {norm(rest[0].target)} + '\\n')"
+                      and isinstance(rest[1], ast.If) and norm(rest[1].test) == last and len(rest[1].body) == 1 and norm(rest[1].body[0]) == f"yield (token_type, {last})" and not rest[1].orelse)
     ctx.check(ok, lt.fq, "partition pieces", lt.where, "per-line splitter yields line_token + new_line until the token is consumed", "line_tokenize no longer re-emits every partition piece (line + newline) in order")
     ts = m.functions.get("Syntax.highlight.<locals>.tokens_to_spans")
     ys = [y for y in walk_local(ts.node) if isinstance(y, ast.Yield)]
